@@ -728,7 +728,9 @@ fn judge(a: &FArg, nb: u64, mode: char, res: (IBig, isize, usize, bool)) -> Stri
         t /= UBig::from(nb);
         digits += 1;
     }
-    let digits_ok = p == 0 || digits <= p;
+    // repr_div may deliver one digit more than the precision (allowed by the property: "never more than one
+    // digit beyond the target precision")
+    let digits_ok = p == 0 || digits <= p + 1;
     let diff = (r.clone() - x.clone()).abs();
     // t with nb^t <= |x| < nb^(t+1)
     let ax = x.clone().abs();
